@@ -105,3 +105,5 @@ def run(check):
         else:
             c.holds('C08.R2', site_of(sp, sp.node), 'the classification copies the provenance map before mask()/embed() edit it', key=key)
     check.run_rule('C08.R2c', r2c)
+    from ..rules_classes import rule_replace_restricts_sources
+    check.run_rule('C08.R8', lambda c: rule_replace_restricts_sources(c, 'C08.R8'))
